@@ -128,10 +128,12 @@ def step (s : St) (pre post : List String) : St × Verdict :=
         else
           -- model: the restart block of NewPocketCoreApp and the predicates
           if st != s.stored || !sameGlob live s.g then (s, .diff s!"{line}: state moved between the last line and the restart")
-          else match restart st with
-            | none => (s, .diff s!"{line}: model restart panics")
-            | some mg =>
-              if !sameGlob mg rest then (s, .diff s!"{line}: restarted globals differ from the model")
+          else match restart st, restartFixed st with
+            | none, _ => (s, .diff s!"{line}: model restart panics")
+            | _, none => (s, .diff s!"{line}: model restart panics")
+            | some mg, some mgf =>
+              -- as coded, or as repaired by fixes/C37-restart-feature-map.patch
+              if !sameGlob mg rest && !sameGlob mgf rest then (s, .diff s!"{line}: restarted globals differ from the model")
               else if (field "PRED=" lp) ≠ some (predBits live ps) then (s, .diff s!"{line}: live predicates differ from the model")
               else if (field "PRED=" rp) ≠ some (predBits rest ps) then (s, .diff s!"{line}: restarted predicates differ from the model")
               else (s, .ok)
